@@ -202,10 +202,11 @@ type rig struct {
 	finalAtCrash []map[string]string
 
 	// oracle hooks
-	onRemove func(r *rig, name string)
-	onDone   func(r *rig, name string)
-	viol     string
-	class    string
+	onRemove   func(r *rig, name string)
+	onDone     func(r *rig, name string)
+	viol       string
+	class      string
+	chainClass string // classifier of the last chain violation found by c07Chain
 }
 
 func (r *rig) now() time.Duration { return time.Since(r.t0) }
